@@ -162,7 +162,8 @@ def main():
 
     # when a proof or the tie broke: look harder for an input on which the PROPERTY fails
     searched = False
-    if (broken or corr_broken) and not failures and not args.replay:
+    if (broken or corr_broken) and not kf.split(prop, failures)[1] and not args.replay:
+        # (failures that are listed known findings do not count: the question is whether an UNLISTED input fails)
         searched = True
         driver = Driver()
         for sname in info['suites']:
@@ -170,7 +171,7 @@ def main():
             for extra in range(1, 3 if args.tier == 'quick' else 6):
                 res = mod.run(seed * 1000 + extra, 'search' if hasattr(mod, 'SEARCH') else args.tier, driver)
                 failures += [f for f in res.failures if f['property'] == prop]
-                if failures:
+                if kf.split(prop, failures)[1]:
                     break
         driver.close()
 
